@@ -25,11 +25,13 @@ LEVEL_TEXT = ("Fault enumeration on the real code: for generated programs every 
               "indices with some output absent and `existing` exactly those with every output stored (loop invariant "
               "over the spec function cnt; StorageBase.mask_linear is an assumed contract checked per backend under "
               "C07).")
+LEVEL_TEXT += (" Also proved: how the result of a function without an element-wise MapSpec reaches the store - _single_dump_single_output (the entry of the output name holds the output afterwards, nothing else changes; KeyError / AssertionError exactly for a missing name or a storage array) and _dump_single_output (outputs found in the store are handed on unchanged; otherwise every output name gets the value picked for it, in order, and its entry holds it; _utils.dump is an assumed contract on the store view - its atomicity is the kill enumeration's business).")
 LEVEL_NOTE = ("Bounds: programs with <=8 user calls, storages file_array / dict / shared_memory_dict, sequential (and a "
               "thread pool for the raise faults). Not covered (N/A for this family): crashes inside mkdir/rmtree, "
               "durability without fsync, killing individual pool workers.")
 TECHNIQUE = ("fault enumeration of the resume contract on the real code (raise points, kill points, torn writes); the "
              "resume decision _existing_and_missing_indices discharged by z3")
+TECHNIQUE += ('; the store writes _single_dump_single_output / _dump_single_output discharged by z3')
 EXPLANATION = LEVEL_TEXT
 RULE = ("program x storage x fault; faults: raise at call k (all k), raise at k1 then k2, kill before the n-th "
         "open-for-write (all n), torn n-th write (all n); distinct = distinct (program, storage, fault); non-trivial = "
